@@ -41,8 +41,8 @@ def prod(xs):
 def programs(tier):
     P = []
 
-    def add(name, mk, pred, fixed=None, kind="bit", size_ok=None):
-        P.append({"name": name, "mk": mk, "pred": pred, "fixed": fixed, "kind": kind, "size_ok": size_ok})
+    def add(name, mk, pred, fixed=None, kind="bit", size_ok=None, call=None):
+        P.append({"name": name, "mk": mk, "pred": pred, "fixed": fixed, "kind": kind, "size_ok": size_ok, "call": call})
 
     # ---- fixed-size scalar lists ------------------------------------------------
     for sz in (0, 1, 2, 3):
@@ -101,6 +101,16 @@ def programs(tier):
                         continue
                     add("fixed%d/%s/%s+%s" % (sz, kind, n1, n2), _mk_fixed(T, sz, lambda s, b1=b1, b2=b2: (b1(s), b2(s))),
                         lambda v, p1=p1, p2=p2: p1(v) and p2(v), fixed=sz, kind=kind)
+    # ---- the list statement lives in a dynamic constraint that every call references inline ----------
+    for sz in (1, 2, 3):
+        for bname, bld, pred in [
+                ("it<c", lambda s: _fe_it(s, lambda it: it < 2), lambda v: all(x < 2 for x in v["l"])),
+                ("l[i]==i", lambda s: _fe_idx(s, lambda s2, i: s2.l[i] == i), lambda v: all(x == i for i, x in enumerate(v["l"]))),
+                ("sum==c", lambda s: s.l.sum == 4, lambda v: sum(v["l"]) == 4),
+                ("unique", lambda s: vsc.unique(s.l), lambda v: len(set(v["l"])) == len(v["l"]))]:
+            if sz == 1 and bname == "sum==c":
+                continue
+            add("dyn%d/bit/%s" % (sz, bname), _mk_dyn(lambda: vsc.bit_t(2), sz, bld), pred, fixed=sz, kind="bit", call="dyn")
     # ---- unique_vec over two fixed lists -----------------------------------------
     for sz in (1, 2):
         add("uvec%d" % sz, _mk_two(sz), lambda v: v["l"] != v["l2"], fixed=sz, kind="bit1")
@@ -198,6 +208,30 @@ def _mk_fixed(T, sz, bld):
 
 
 E_VALS = (1, 0, 2, 1, 0, 2, 2, 1, 0, 1)
+
+
+def _mk_dyn(T, sz, bld):
+    def mk():
+        @vsc.randobj
+        class C(object):
+            def __init__(self):
+                self.l = vsc.rand_list_t(T(), sz)
+                self.n = vsc.rand_bit_t(3)
+                self.m = vsc.bit_t(3, i=2)
+
+            @vsc.dynamic_constraint
+            def dc(self):
+                bld(self)
+        return C
+    return mk
+
+
+def do_call(o, prog):
+    if prog.get("call") == "dyn":
+        with o.randomize_with() as it:
+            it.dc()
+    else:
+        o.randomize()
 
 
 def _mk_two(sz):
@@ -367,7 +401,7 @@ def run_case(case):
         o.set_randstate(SRandState(s))
         outs = []
         for _ in range(2):
-            out = common.outcome(o.randomize)
+            out = common.outcome(lambda: do_call(o, prog))
             try:
                 v = view(o, kind)
             except Exception as e:
@@ -452,7 +486,7 @@ def run_case(case):
                     continue       # editing one of the two vectors makes their sizes differ: a user error
                 if True:
                     # a further call after the edits must again expose a consistent list
-                    out = common.outcome(o.randomize)
+                    out = common.outcome(lambda: do_call(o, prog))
                     cnt["executions"] += 1
                     if out[0] == "ok":
                         try:
@@ -460,6 +494,10 @@ def run_case(case):
                             if not (v["len"] == v["size"] == len(v["l"])) or v["idx"] != v["l"]:
                                 bad("length_disagreement", "after edits %r and another call: len=%r size=%r iter=%r idx=%r" % (
                                     hist, v["len"], v["size"], v["l"], v["idx"]), v, "consistent", keep, hist)
+                            elif prog["fixed"] is not None and kind in ("bit", "int") and v["len"] == len(twin) and not prog["pred"](v):
+                                # the statements range over the list as the user left it (edited), not as an earlier call saw it
+                                bad("list_constraint_violated", "after edits %r another call returned l=%r n=%r which violates the "
+                                    "constraint evaluated over the exposed elements" % (hist, v["l"], v["n"]), v, "constraint holds", keep, hist)
                         except Exception as ex:
                             bad("list_unreadable", "after edits %r and another call reading raised %s" % (hist, type(ex).__name__),
                                 [type(ex).__name__], "readable", keep, hist)
